@@ -169,6 +169,27 @@ Theorem C05_broadcast_index_rule : forall (A : Type) (O : NumOps A) rs rt d i, (
 Proof. exact @bcast_nth. Qed.
 Print Assumptions C05_broadcast_index_rule.
 
+Theorem C05_broadcast_same_shape : forall s i stride, (i < prodn s)%nat -> bproj s s i stride = (stride * i)%nat.
+Proof. exact bproj_same_shape. Qed.
+Print Assumptions C05_broadcast_same_shape.
+
+(* the class called with raw constructor arguments of any shapes = the family on the broadcast arrays *)
+Theorem C05_class_is_family_on_broadcast : forall lgam f a b d xs, two_arg f = true ->
+  class_log_prob (ROpsG lgam) f a b d xs =
+  fam_log_prob (ROpsG lgam) f (bcast (ROpsG lgam) (fst a) (bshape_rev (fst a) (fst b)) (snd a))
+                             (bcast (ROpsG lgam) (fst b) (bshape_rev (fst a) (fst b)) (snd b)) [] xs.
+Proof. exact class_log_prob_ctor2. Qed.
+Print Assumptions C05_class_is_family_on_broadcast.
+
+Theorem C05_class_normal_spec : forall lgam a b d xs,
+  let rt := bshape_rev (fst a) (fst b) in
+  let locs := bcast (ROpsG lgam) (fst a) rt (snd a) in
+  let scales := bcast (ROpsG lgam) (fst b) rt (snd b) in
+  length xs = prodn rt -> Forall (fun s => 0 < s) scales ->
+  class_log_prob (ROpsG lgam) FNormal a b d (map Fin xs) = esum (map3 (fun m s x => elog (normal_pdf m s x)) locs scales xs).
+Proof. exact class_normal_spec. Qed.
+Print Assumptions C05_class_normal_spec.
+
 (* ================= non-vacuity: concrete instances that meet the hypotheses ================= *)
 Example C05_ex_normal_vector :
   fam_log_prob ROps FNormal [1; -2] [2; 1 / 2] [] [Fin 3; Fin 0] =
